@@ -1,10 +1,13 @@
 // Constants the C07 / C54 / C53 theorems mention (family pow), printed from the compiled tree.
 #include <chain.h>
 #include <versionbits.h>
+#include <consensus/params.h>
 VERIF_PARAMS(pow) {
     DZ(MAX_FUTURE_BLOCK_TIME);
     defz("MEDIAN_TIME_SPAN", (long long)CBlockIndex::nMedianTimeSpan);
     defzu("VERSIONBITS_TOP_BITS", (uint32_t)VERSIONBITS_TOP_BITS);
     defzu("VERSIONBITS_TOP_MASK", (uint32_t)VERSIONBITS_TOP_MASK);
     DZ(VERSIONBITS_NUM_BITS);
+    defz("BIP9_ALWAYS_ACTIVE", (long long)Consensus::BIP9Deployment::ALWAYS_ACTIVE);
+    defz("BIP9_NEVER_ACTIVE", (long long)Consensus::BIP9Deployment::NEVER_ACTIVE);
 }
